@@ -44,7 +44,7 @@ fn agg_tag(text: &str, r: &BatchResult) -> String {
 // ---------------------------------------------------------------------------------------------------------------
 // typed stream: table, statements as data, reference
 
-pub const C04_DEF: &str = "CREATE TABLE t(line = '^([a-z]+)?;(-?[0-9]+)?;(-?[0-9]+)?;([^;]+)?;([^;]+)?;(true|false)?;([0-9]+:[0-9]{2}:[0-9]{2})?;(?:([0-9]{4})-([0-9]{2})-([0-9]{2}) ([0-9]{2}):([0-9]{2}):([0-9]{2}))?$', line[1] => k TEXT, line[2] => v INT, line[3] => w INT, line[4] => r REAL, line[5] => s TEXT, line[6] => b BOOLEAN, line[7] => iv INTERVAL, line[8], line[9], line[10], line[11], line[12], line[13] => ts TIMESTAMP);";
+pub const C04_DEF: &str = "CREATE TABLE t(line = '^([a-z]+)?;(-?[0-9]+)?;(-?[0-9]+)?;([^;]+)?;(?:~|([^;]*));(true|false)?;([0-9]+:[0-9]{2}:[0-9]{2})?;(?:([0-9]{4})-([0-9]{2})-([0-9]{2}) ([0-9]{2}):([0-9]{2}):([0-9]{2}))?$', line[1] => k TEXT, line[2] => v INT, line[3] => w INT, line[4] => r REAL, line[5] => s TEXT, line[6] => b BOOLEAN, line[7] => iv INTERVAL, line[8], line[9], line[10], line[11], line[12], line[13] => ts TIMESTAMP);";
 
 const COLS: &[&str] = &["k", "v", "w", "r", "s", "b", "iv", "ts"];
 const NCOLS: usize = 8;
@@ -279,13 +279,13 @@ pub fn gen_typed_input(rng: &mut Rng, large: bool) -> Vec<String> {
         let v = (x - 5).to_string();
         let w = if large { ((x * 7) % pool as i64 - 3).to_string() } else { rng.range(-2, 3).to_string() };
         let r = if large { format!("{}", (x as f64) * 0.25 - 2.0) } else { (*rng.pick(&["0.5", "1.5", "-2.25", "100", "3", "8", "0.25"])).to_owned() };
-        let s = if large { format!("s{}", x) } else { (*rng.pick(&["x", "y", "hello", "q q", "10"])).to_owned() };
+        let s = if large { format!("s{}", x) } else { (*rng.pick(&["x", "y", "hello", "q q", "10", "", ""])).to_owned() };  // column s: `~` is NULL, the empty field is the empty TEXT
         let b = (*rng.pick(&["true", "false"])).to_owned();
         let iv = if large { format!("{}:{:02}:{:02}", x / 7, (x * 13) % 60, (x * 29) % 60) } else { (*rng.pick(&["0:00:10", "1:02:03", "0:30:00", "2:00:00", "10:00:01", "0:00:00", "0:00:10", "2:00:00", "1000000:00:00", "2500000:30:00"])).to_owned() };  // the last two: a few of them sum to more than 2^63 ns (still far inside chrono's range)
         let y = rng.below(if large { pool } else { 6 }) as i64;
         let ts = format!("{}-{:02}-{:02} {:02}:{:02}:{:02}", 1999 + y % 3 * 10, 1 + y % 12, 1 + (y * 5) % 28, y % 24, (y * 7) % 60, (y * 11) % 60);
         let mut f: Vec<String> = vec![keys[ki].to_owned(), v, w, r, s, b, iv, ts];
-        for c in 1..NCOLS { if rng.chance(nullp[ki][c], 100) { f[c] = String::new(); } }
+        for c in 1..NCOLS { if rng.chance(nullp[ki][c], 100) { f[c] = if c == S { "~".to_owned() } else { String::new() }; } }
         rows.push(Ok((ki, f)));
     }
     // a NULL argument in the first, a middle or the last row of a group
@@ -295,7 +295,7 @@ pub fn gen_typed_input(rng: &mut Rng, large: bool) -> Vec<String> {
         let idx: Vec<usize> = rows.iter().enumerate().filter(|(_, r)| matches!(r, Ok((k, _)) if *k == ki)).map(|(i, _)| i).collect();
         if idx.is_empty() { continue; }
         let at = match rng.below(3) { 0 => idx[0], 1 => idx[idx.len() / 2], _ => idx[idx.len() - 1] };
-        if let Ok((_, f)) = &mut rows[at] { f[c] = String::new(); }
+        if let Ok((_, f)) = &mut rows[at] { f[c] = if c == S { "~".to_owned() } else { String::new() }; }
     }
     // arrival orders: as generated, or sorted / reversed by the argument pools
     if large {
